@@ -200,7 +200,15 @@ def run(ctx):
             r.violate(mg.id, "merge-coverage", f"update() mutates {sorted(Wu)} but merge() does not write {sorted(missing_w)} / does not read other.{sorted(missing_r)}: "
                       "the contribution of a partition's partial state to these fields is lost when states are combined (result depends on the partition count)",
                       ms["merge"]["file"], ms["merge"]["line"])
-    return [r, rule_valid(facts, impls), rule_simul(facts)]
+    from .astclause import clause_sites
+    rf = RuleResult("C07-AGGFILTER", "the binder consults the aggregate FILTER clause wherever it builds an aggregate expression (translated or refused, never dropped)", floor=1)
+    for fn, rec, ln, guarded in clause_sites(facts, lambda i: "logical::binder::expr_binder" in i, "aggregate_expr::AggregateExpr", "filter", "ast::Function"):
+        rf.functions.add(fn.id)
+        rf.inst({"fn": fn.id, "line": ln, "filter_clause_consulted": guarded}, guarded)
+        if not guarded:
+            rf.violate(fn.id, "filter-clause-dropped", f"an AggregateExpr is built at line {ln} without any branch on the parsed `FILTER (WHERE …)` clause: the clause is accepted by "
+                       "the parser and silently ignored, `count(*) FILTER (WHERE x > 5)` counts every row", rec["file"], ln)
+    return [r, rule_valid(facts, impls), rule_simul(facts), rf]
 
 
 CLAIM = {
